@@ -46,6 +46,24 @@ class Violation(Exception):
         self.detail = detail
 
 
+class CaseTimeout(BaseException):
+    """A single case ran longer than CASE_TIMEOUT seconds (normal cases take milliseconds)."""
+
+
+CASE_TIMEOUT = float(os.environ.get("VERIF_CASE_TIMEOUT", "15"))
+
+
+def _on_alarm(signum, frame):
+    raise CaseTimeout()
+
+
+def arm(seconds=None):
+    """(Re)start the per-case watchdog; 0 disarms it."""
+    import signal
+
+    signal.setitimer(signal.ITIMER_REAL, CASE_TIMEOUT if seconds is None else seconds)
+
+
 class HarnessError(Exception):
     """Something is wrong with the harness itself (never a violation)."""
 
@@ -85,6 +103,7 @@ class Acc:
         self._sample_next = 1
         self.violations = []
         self.notes = collections.Counter()
+        self.timeouts = 0
         # state of the case being evaluated
         self._cur_nontrivial = False
         self._cur_tags = None
@@ -112,9 +131,16 @@ class Acc:
         self.evaluations += 1
         self._cur_nontrivial = False
         try:
-            check_case(case, self)
+            arm()
+            try:
+                check_case(case, self)
+            finally:
+                arm(0)
         except Violation as exc:
             return exc
+        except CaseTimeout:
+            self.timeouts += 1
+            return Violation("non-termination", "the case did not finish within %.0f s (comparable cases take milliseconds): a library call loops or recurses without bound" % CASE_TIMEOUT)
         except Exception as exc:  # noqa: BLE001 - see module docstring
             tb = traceback.format_exc(limit=-6)
             return Violation("unexpected-exception", "%s: %s\n%s" % (type(exc).__name__, exc, tb))
@@ -139,7 +165,7 @@ class Acc:
                 if not any(v["clause"] == exc.clause for v in self.violations):
                     self.add_violation(case, exc)
                 self.tags["violating_cases"] += 1
-                if len(self.violations) >= MAX_VIOLATIONS_PER_SHARD:
+                if len(self.violations) >= MAX_VIOLATIONS_PER_SHARD or exc.clause == "non-termination":
                     break
 
     def run_hypothesis(self, check_case, strategy, max_examples, seed, shrink=True):
@@ -151,9 +177,14 @@ class Acc:
         holder = {}
 
         def body(case):
+            if holder.get("abort"):
+                return
             exc = acc.evaluate(check_case, case, enumerated=False)
             if exc is not None:
                 holder["failure"] = (case, exc)
+                if exc.clause == "non-termination":
+                    # do not shrink through hanging cases: keep this one and make Hypothesis stop
+                    holder["abort"] = True
                 raise exc
 
         phases = [Phase.generate, Phase.target]
@@ -253,8 +284,16 @@ def _worker_init(prop_id, assertions):
     os.environ["ANYTREE_ASSERTIONS"] = "1" if assertions else "0"
     os.environ.setdefault("PYTHONHASHSEED", "0")
     _setup_import_path()
-    sys.setrecursionlimit(3000)
     import importlib
+    import resource
+    import signal
+
+    signal.signal(signal.SIGALRM, _on_alarm)
+    try:  # a runaway case gets MemoryError instead of taking the machine down
+        limit = int(os.environ.get("VERIF_MEM_LIMIT_MB", "6000")) * 1024 * 1024
+        resource.setrlimit(resource.RLIMIT_AS, (limit, limit))
+    except (ValueError, OSError):
+        pass
 
     import anytree.config
 
@@ -275,6 +314,8 @@ def _worker_run(task):
             _WORKER["mod"].run_task(task, acc)
     except HarnessError as exc:
         return {"error": "HarnessError: %s" % exc, "task": task, "part": acc.export()}
+    except CaseTimeout:
+        return {"error": "watchdog fired outside a case (generator or framework code hung)", "task": task, "part": acc.export()}
     except Exception:  # noqa: BLE001
         return {"error": traceback.format_exc(), "task": task, "part": acc.export()}
     return {"error": None, "task": task, "part": acc.export()}
@@ -285,11 +326,19 @@ def run_tasks(prop_id, tasks, total):
     groups = collections.OrderedDict()
     for task in tasks:
         groups.setdefault(int(task.get("assertions", 0)), []).append(task)
+    import concurrent.futures as cf
+
     ctx = multiprocessing.get_context("spawn")
     for assertions, group in groups.items():
         nproc = max(1, min(NPROC, len(group)))
-        with ctx.Pool(nproc, initializer=_worker_init, initargs=(prop_id, assertions), maxtasksperchild=None) as pool:
-            for res in pool.imap_unordered(_worker_run, group, chunksize=1):
+        with cf.ProcessPoolExecutor(nproc, mp_context=ctx, initializer=_worker_init, initargs=(prop_id, assertions)) as pool:
+            futures = {pool.submit(_worker_run, task): task for task in group}
+            for fut in cf.as_completed(futures):
+                try:
+                    res = fut.result()
+                except Exception as exc:  # noqa: BLE001 - e.g. BrokenProcessPool when a worker died
+                    total.errors.append((futures[fut], "worker failed: %s: %s" % (type(exc).__name__, exc)))
+                    continue
                 total.merge(res["part"])
                 if res["error"]:
                     total.errors.append((res["task"], res["error"]))
